@@ -92,6 +92,11 @@ public:
     template<typename View>
     void apply( const View& view )
     {
+        // Errors jump to the _mark of the backend registered as client data. That was the object
+        // under construction, of which this reader may be a copy; its _mark was set in the
+        // constructor's frame, which is gone.
+        this->get()->client_data = static_cast< backend_t* >( this );
+
         // Fire exception in case of error.
         if( setjmp( this->_mark ))
         {
@@ -149,6 +154,12 @@ public:
                 break;
             }
             default: { io_error( "Unsupported jpeg color space." ); }
+        }
+
+        // read_rows() has set _mark to its own frame, which has returned
+        if( setjmp( this->_mark ))
+        {
+            this->raise_error();
         }
 
         jpeg_finish_decompress ( this->get() );
